@@ -9,6 +9,7 @@ from .common import (BaseHooks, V, finite, fnum, is_qmat, key, logspace_sigma, n
                      round_sig, sub_rng)
 
 PROP = "C04"
+CLOCKS = [[0.0], [1e-3, -3600.0, 1e6], [1e6], [-1.0], [5e-4, 0.0, 0.0, 7200.0], [1e-9]]
 WORLDS_QUICK = ("pkg", "flat")
 WORLDS_THOROUGH = ("pkg", "flat", "pkg_then_flat", "flat_then_pkg")
 FAMILIES = ("generic", "herm", "unitary", "cI", "I_lowrank", "tri", "diagrep", "spread", "perm", "near_I", "pure", "intmat")
@@ -158,6 +159,10 @@ def _solve_steps(steps, sysd, scale, tol, prec, cap, storage, jitter, R, tagx=No
                           "family": sysd["family"], "bkind": sysd["bkind"]}, **(tagx or {}))}
     if jitter:
         call["fault"] = {"jitter": R.randrange(2 ** 31)}
+    if R.random() < 0.15:
+        # the solve runs under a clock script (stalled, jumping forwards / backwards, coarse): Q-GMRES
+        # has no business reading the clock for a decision
+        call["clock"] = R.choice(CLOCKS)
     steps.append(call)
     return call
 
